@@ -298,6 +298,20 @@ def fixed_programs():
                 if a != b:
                     p.append(["Eq", ["d", str(a)], ["d", str(b)]])
         out.append(p)
+    # records that differ in kind only, where one kind's class is a subclass of the other's (mentionOf without a bundle
+    # argument / specializationOf) or the kinds share their formal arguments (generation / usage / invalidation mirrored)
+    def kind_doc(i, kind, a1, a2):
+        return [["NewDoc"], ["AddNs", ["d", str(i)], "ex", EXU],
+                ["NewRecord", ["d", str(i)], kind, ["S", "ex:r"], [[["Q", "prov", PROVU, a1], ["str", "ex:x"]], [["Q", "prov", PROVU, a2], ["str", "ex:y"]]]]]
+    p = kind_doc(0, "Specialization", "specificEntity", "generalEntity") + kind_doc(1, "Mention", "specificEntity", "generalEntity") + \
+        kind_doc(2, "Alternate", "alternate1", "alternate2") + kind_doc(3, "Generation", "entity", "activity") + \
+        kind_doc(4, "Invalidation", "entity", "activity") + kind_doc(5, "Usage", "activity", "entity")
+    for a in range(6):
+        for b in range(6):
+            if a != b:
+                p.append(["Eq", ["d", str(a)], ["d", str(b)]])
+                p.append(["EqRec", ["r", ["d", str(a)], "0"], ["r", ["d", str(b)], "0"]])
+    out.append(p)
     # one attribute of one entity holding, in turn, values that denote or print alike but are different values: the
     # qualified name ex:a, the same name under another prefix (the SAME value), the URI it denotes as an xsd:anyURI, as a
     # plain string, the string "ex:a", a language-tagged "ex:a"; 1, "1", True, "True", 1.0 — every pair, both orders, as
